@@ -99,7 +99,7 @@ Section Live.
 
   Lemma cnt_wake r row w : cnt_on r (wake_w V row w) = cnt_on r w.
   Proof.
-    destruct w as [| |y x tl l ph|y x tl l|y x tl l ph]; cbn; try reflexivity.
+    destruct w as [| |y x tl l ph|y x tl l|y x tl l t0 tr0|y x tl l ph]; cbn; try reflexivity.
     destruct ph; cbn; try reflexivity. destruct (y =? S row); reflexivity.
   Qed.
 
@@ -369,14 +369,14 @@ Section Live.
   Proof. destruct rc as [ph|]; [|reflexivity]. destruct ph; cbn; try reflexivity. destruct (recRow =? row); reflexivity. Qed.
   Lemma hold_wake_w row w : hold_w (wake_w V row w) = hold_w w.
   Proof.
-    destruct w as [| |y x tl l ph|y x tl l|y x tl l ph]; cbn; try reflexivity.
+    destruct w as [| |y x tl l ph|y x tl l|y x tl l t0 tr0|y x tl l ph]; cbn; try reflexivity.
     destruct ph; cbn; try reflexivity. destruct (y =? S row); reflexivity.
   Qed.
 
   Lemma wake_dwait_inv row w y x tl l ph : wake_w V row w = DWait y x tl l ph -> asleepish ph = true ->
     w = DWait y x tl l ph /\ (y <> S row \/ ph <> PSleep).
   Proof.
-    destruct w as [| |y0 x0 tl0 l0 ph0|y0 x0 tl0 l0|y0 x0 tl0 l0 ph0]; cbn; try discriminate.
+    destruct w as [| |y0 x0 tl0 l0 ph0|y0 x0 tl0 l0|y0 x0 tl0 l0 t0 tr0|y0 x0 tl0 l0 ph0]; cbn; try discriminate.
     destruct ph0; cbn; try (intros H Ha; inversion H; subst; split; [reflexivity|right; discriminate]).
     destruct (Nat.eqb_spec y0 (S row)) as [->|Hne].
     - intros H Ha. inversion H; subst. discriminate Ha.
@@ -385,7 +385,7 @@ Section Live.
 
   Lemma wake_dsig row w r x tl l sp : wake_w V row w = DSig r x tl l sp <-> w = DSig r x tl l sp.
   Proof.
-    destruct w as [| |y0 x0 tl0 l0 ph0|y0 x0 tl0 l0|y0 x0 tl0 l0 ph0]; cbn; try tauto;
+    destruct w as [| |y0 x0 tl0 l0 ph0|y0 x0 tl0 l0|y0 x0 tl0 l0 t0 tr0|y0 x0 tl0 l0 ph0]; cbn; try tauto;
       try (split; discriminate).
     destruct ph0; cbn; try (split; discriminate). destruct (y0 =? S row); split; discriminate.
   Qed.
@@ -397,7 +397,7 @@ Section Live.
   Proof.
     intros HD HL Hw Hnw Hs. pose proof (nth_error_lt _ _ _ Hw) as Hil.
     unfold ConcDetailed.dstep_worker in Hs. rewrite Hw in Hs.
-    destruct w as [| |y x tl l ph|y x tl l|y x tl l sp]; try discriminate.
+    destruct w as [| |y x tl l ph|y x tl l|y x tl l t0 tr0|y x tl l sp]; try discriminate.
     - (* DIdle *)
       destruct (d_next V s <? mbH); inversion Hs; subst s'; clear Hs.
       + apply (quiet_live n s i DIdle); auto; try (intros; reflexivity); try discriminate.
@@ -406,18 +406,21 @@ Section Live.
         * apply start_mb_not_asleep.
       + apply (quiet_live n s i DIdle); auto; try (intros; reflexivity); try discriminate.
     - exfalso. exact (Hnw y x tl l ph eq_refl).
-    - (* DCompute: becomes the signaller of its row in phase QStore; adone[y] := x+1 *)
+    - (* DCompute: reads the contexts *)
       inversion Hs; subst s'; clear Hs.
-      set (w' := DSig y x (snd (d_top V s x)) (f y x tl (snd (d_top V s x)) (if S x <? mbW then snd (d_top V s (S x)) else v0) l) QStore).
-      pose proof (quiet_live n s i (DCompute y x tl l) w' (d_next V s)
-                    (upd1 (d_top V s) x (Some y, f y x tl (snd (d_top V s x)) (if S x <? mbW then snd (d_top V s (S x)) else v0) l))
-                    (upd2 (d_out V s) y x (Some (f y x tl (snd (d_top V s x)) (if S x <? mbW then snd (d_top V s (S x)) else v0) l)))
+      apply (quiet_live n s i (DCompute y x tl l)); auto; try (intros; reflexivity); try discriminate.
+    - (* DHold: writes; becomes the signaller of its row in phase QStore; adone[y] := x+1 *)
+      inversion Hs; subst s'; clear Hs.
+      set (w' := DSig y x t0 (f y x tl t0 tr0 l) QStore).
+      pose proof (quiet_live n s i (DHold y x tl l t0 tr0) w' (d_next V s)
+                    (upd1 (d_top V s) x (Some y, f y x tl t0 tr0 l))
+                    (upd2 (d_out V s) y x (Some (f y x tl t0 tr0 l)))
                     (d_tokens V s) HD HL Hw) as HQ.
       specialize (HQ ltac:(intros; reflexivity) ltac:(intros; reflexivity) eq_refl eq_refl
                      ltac:(intros; discriminate) ltac:(intros; discriminate)).
       apply (live_set_adone _ y (S x)) in HQ.
       + exact HQ.
-      + exists i, x, (snd (d_top V s x)), (f y x tl (snd (d_top V s x)) (if S x <? mbW then snd (d_top V s (S x)) else v0) l).
+      + exists i, x, t0, (f y x tl t0 tr0 l).
         cbn. unfold setw. rewrite sn_eq by exact Hil. reflexivity.
     - (* DSig *)
       pose proof (p_ok V v0 f mbW mbH n s HD i _ Hw) as Hadone. cbn in Hadone.
@@ -715,7 +718,7 @@ Section Live.
   Proof.
     intros HD HL Hs. destruct l as [i|]; cbn [ConcDetailed.dstep] in Hs; [|exact (dstep_rec_live n s s' HD HL Hs)].
     destruct (nth_error (d_workers V s) i) as [w|] eqn:Hw.
-    - destruct w as [| |y x tl l ph|y x tl l|y x tl l sp] eqn:Ew.
+    - destruct w as [| |y x tl l ph|y x tl l|y x tl l t0 tr0|y x tl l sp] eqn:Ew.
       3: exact (dwait_live n s i y x tl l ph s' HD HL Hw Hs).
       all: apply (other_worker_live n s i _ s' HD HL Hw); [intros; discriminate|exact Hs].
     - unfold ConcDetailed.dstep_worker in Hs. rewrite Hw in Hs. discriminate.
@@ -740,17 +743,18 @@ Section Live.
 
   Lemma worker_step_some s i w : nth_error (d_workers V s) i = Some w ->
     match w with
-    | DIdle | DCompute _ _ _ _ => True
+    | DIdle | DCompute _ _ _ _ | DHold _ _ _ _ _ _ => True
     | DSig _ _ _ _ sp => sp <> QLock
     | DWait _ _ _ _ ph => ph <> PLock /\ ph <> PWoken /\ ph <> PSleep
     | DExited => False
     end -> dstep s (LW i) <> None.
   Proof.
     intros Hw Hc. cbn [ConcDetailed.dstep]. unfold ConcDetailed.dstep_worker. rewrite Hw.
-    destruct w as [| |y x tl l ph|y x tl l|y x tl l sp]; try contradiction.
+    destruct w as [| |y x tl l ph|y x tl l|y x tl l t0 tr0|y x tl l sp]; try contradiction.
     - destruct (d_next V s <? mbH); discriminate.
     - destruct Hc as (H1 & H2 & H3). destruct ph; cbn [wait_step]; try congruence; try discriminate.
       + destruct (needed x <=? d_done V s (y - 1)); discriminate.
+    - discriminate.
     - discriminate.
     - destruct sp; try congruence; discriminate.
   Qed.
@@ -770,7 +774,7 @@ Section Live.
   Proof.
     intros HL Hm. destruct o as [k|].
     - destruct (q_mu_w1 s HL r k Hm) as (w & Hk & Hh). exists (LW k). apply (worker_step_some s k w Hk).
-      destruct w as [| |y x tl l ph|y x tl l|y x tl l sp]; cbn in Hh; try discriminate.
+      destruct w as [| |y x tl l ph|y x tl l|y x tl l t0 tr0|y x tl l sp]; cbn in Hh; try discriminate.
       + destruct ph; cbn in Hh; try discriminate; repeat split; discriminate.
       + destruct sp; try discriminate.
     - pose proof (q_mu_r1 s HL r Hm) as Hh. exists LRec. apply rec_step_some.
@@ -782,7 +786,7 @@ Section Live.
   Lemma worker_enabled_or_blocked s i w : Live s -> nth_error (d_workers V s) i = Some w ->
     (exists l, dstep s l <> None) \/ blocked_w w.
   Proof.
-    intros HL Hw. destruct w as [| |y x tl l ph|y x tl l|y x tl l sp].
+    intros HL Hw. destruct w as [| |y x tl l ph|y x tl l|y x tl l t0 tr0|y x tl l sp].
     - left. exists (LW i). now apply (worker_step_some s i _ Hw).
     - right. now left.
     - assert (Hlockcase : ph = PLock \/ ph = PWoken -> exists l0, dstep s l0 <> None).
@@ -793,6 +797,7 @@ Section Live.
       + left. apply Hlockcase. now left.
       + right. right. exists y, x, tl, l. reflexivity.
       + left. apply Hlockcase. now right.
+    - left. exists (LW i). now apply (worker_step_some s i _ Hw).
     - left. exists (LW i). now apply (worker_step_some s i _ Hw).
     - destruct sp; try (left; exists (LW i); apply (worker_step_some s i _ Hw); discriminate).
       left. destruct (d_mu V s y) as [o|] eqn:Emu; [exact (holder_enabled s y o HL Emu)|].
